@@ -565,6 +565,30 @@ func runL2(ctx context.Context, t fataler, r *evid.Recorder, c *GenCase) {
 			t.Fatalf("harness: %s", msg)
 		}
 		if key != "" {
+			// diagnosis: do the requests fit the image of ANOTHER plugin entry's type filter?
+			for _, q := range c.Plugins {
+				if q.Opt == p.Opt || fmt.Sprint(q.Types, q.ExcludeTypes) == fmt.Sprint(p.Types, p.ExcludeTypes) {
+					continue
+				}
+				qimg := img
+				if len(q.Types) > 0 || len(q.ExcludeTypes) > 0 {
+					if qimg, err = bufimageutil.FilterImage(img, bufimageutil.WithIncludeTypes(q.Types...), bufimageutil.WithExcludeTypes(q.ExcludeTypes...)); err != nil {
+						continue
+					}
+				}
+				qviews := viewsOfImage(qimg)
+				qres, err := newRefResolver(fdpsOf(qviews))
+				if err != nil {
+					continue
+				}
+				qexp := exp
+				qexp.files = qviews
+				if k2, _, _ := checkRequests(qres, qexp, reqs); k2 == "" {
+					key = "not-generated:type-filter-leaked"
+					msg = fmt.Sprintf("the requests sent to %s (types=%v exclude_types=%v) are built from the image filtered for entry %s (types=%v exclude_types=%v); against its own image: %s", p.Opt, p.Types, p.ExcludeTypes, q.Opt, q.Types, q.ExcludeTypes, msg)
+					break
+				}
+			}
 			r.Fail(t, key, fmt.Sprintf("%s (plugin entry %s, version %s): %s", cmd, p.Opt, c.Version, msg), c)
 			return
 		}
